@@ -485,6 +485,19 @@ def pending (s : State) (t : Nat) : Nat :=
   sumBy (tidIs · t) s.queued + sumBy (tidIs · t) s.inflight +
     sumBy (fun j => optTidIs j.pend t + optTidIs j.cont t) s.jobs
 
+/-! ## §2b TryRunTask's steal loop
+
+    uint32_t checkCount = 0;
+    while( !bHaveTask && checkCount < BOUND ) {
+        threadToCheck = ( hintPipeToCheck_io_ + checkCount ) % m_NumThreads;
+        if( threadToCheck != threadNum ) bHaveTask = pipe[threadToCheck].ReaderTryReadBack(..);
+        ++checkCount; }
+
+`BOUND` (as a function of m_NumThreads) is read from the source on every run (Gen/C01Table.lean). -/
+
+/-- the other threads' pipes one call of `TryRunTask(t, hint)` probes when nothing is found: in this order -/
+def stealProbes (n bound t h : Nat) : List Nat := ((List.range bound).map fun c => (h + c) % n).filter (· ≠ t)
+
 /-! ## §3 Pipe — LockLessMultiReadPipe's flag protocol
 
   WriterTryWriteFront(in):  k = m_WriteIndex & mask;
